@@ -579,6 +579,15 @@ func (m *Machine) runLoop() {
 					m.fire(evs[k])
 					continue
 				}
+				if g.commitPending {
+					// the commit of a badger transaction is its own scheduling point
+					if m.maybePreempt(g) {
+						continue
+					}
+					g.atSched = false
+					m.runPendingCommit(g)
+					continue
+				}
 				if g.panicV != nil && len(g.frames) == g.unwindDepth {
 					m.unwindStep(g)
 					continue
